@@ -85,7 +85,9 @@ func genApiPlan(r *rand.Rand) *ApiPlan {
 		case x < 3 || nsess == 0 && x < 6:
 			op.Kind = "login"
 			op.User = []string{"admin", "admin", "admin", "nobody", "ADMIN"}[r.IntN(5)]
-			op.Pass = []string{apiPassword, apiPassword, apiPassword, "wrong", ""}[r.IntN(5)]
+			// right, wrong, empty, and near misses: the right password with white space around it, a
+			// prefix of it, another letter case (none of them is the password whose hash is stored)
+			op.Pass = []string{apiPassword, apiPassword, apiPassword, "wrong", "", apiPassword + " ", " " + apiPassword, apiPassword + "\n", "\t" + apiPassword, apiPassword[:len(apiPassword)-1], strings.ToUpper(apiPassword), apiPassword + "\u00a0"}[r.IntN(12)]
 			nsess++
 		case x < 8:
 			op.Kind = "use"
